@@ -101,7 +101,7 @@ Proof. exact (fun sid src ty l sc ph a => eq_refl). Qed.
 Print Assumptions C02_line_layout.
 
 (* MAIN THEOREM. For every feature list of the domain (wf_C02: ASCII fields, admissible keys, typed seqid/source/score/phase,
-   split features have an ID; rt_C02: first location without attributes of its own, no location-level seqid/source/type/ID,
+   split features have an ID; rt_C02: first location without attributes of its own, no location-level seqid/type/ID,
    neighbouring features differ in (ID, type, seqid)) whose locations are in LocationTuple order:
    write -> read -> write gives byte-identical text (fix2), and the features read back have the same type, the same ordered
    locations with the same coordinates and strand, and for every location the same effective attribute map, seqid, source,
@@ -141,16 +141,19 @@ Theorem C02_loc_tuple_sorted : forall L, (loc_tuple L = Some L -> locs_sorted L 
 Proof. exact (fun L => conj (loc_tuple_fix_sorted L) (loc_tuple_sorted L)). Qed.
 Print Assumptions C02_loc_tuple_sorted.
 
-(* regions excluded from the round-trip clauses, each with its witness (pending fixes, see the report) *)
+(* region excluded from the round-trip clauses, with its witness: open finding F39 (firstloc_overrides) *)
 Theorem C02_firstloc_overrides_refuted :
   exists x, wf_C02 x = true /\ forallb normalised x = false /\ fix2 x = false /\ roundtrip_ok x = false.
 Proof. exact firstloc_refuted. Qed.
 Print Assumptions C02_firstloc_overrides_refuted.
 
-Theorem C02_loc_source_refuted :
-  exists x, wf_C02 x = true /\ forallb normalised x = true /\ rt_C02 x = false /\ roundtrip_ok x = false.
-Proof. exact locsource_refuted. Qed.
-Print Assumptions C02_loc_source_refuted.
+(* F38 (fixed in 3e14524): lines of one feature naming different sources keep their own source column; the list is inside
+   the round-trip domain, the second cycle is byte-identical and the written text is the expected one *)
+Theorem C02_loc_source_kept :
+  wf_C02 [ex_locsource] = true /\ rt_C02 [ex_locsource] = true /\ fix2 [ex_locsource] = true /\ roundtrip_ok [ex_locsource] = true /\
+  option_map Bstr (write_gff [ex_locsource]) = Some ex_locsource_text.
+Proof. exact locsource_ok. Qed.
+Print Assumptions C02_loc_source_kept.
 
 Theorem C02_adjacent_same_id_refuted :
   exists x, wf_C02 x = true /\ forallb normalised x = true /\ adjacent_distinct x = false /\ fix2 x = false /\ roundtrip_ok x = false.
